@@ -215,6 +215,13 @@ func Origins(v ssa.Value) []ssa.Value {
 						rec(fv)
 						return
 					}
+					// a field of the environment struct of a method that stands for a function literal
+					if vals, ok := EnvFieldStores(fa); ok {
+						for _, sv := range vals {
+							rec(sv)
+						}
+						return
+					}
 				}
 				// load from a cell of this function: the stores that reach it
 				if al, ok := x.X.(*ssa.Alloc); ok {
